@@ -1359,6 +1359,48 @@ def macro_rule_arms(toks, macro):
             return
 
 
+def collect_impls(repo_src_reader, files):
+    """every `impl` header of the given files (with `impl_ops!` inlined): [(discriminator, [kind-bound marker names])]"""
+    from rustlex import lex
+    rows = []
+    for rel in files:
+        toks = lex(repo_src_reader(rel))
+        try:
+            span, exps = expand_impl_ops(toks)
+            streams = [toks[:span[0]] + toks[span[1] + 1:]] + exps
+        except BodyError:
+            streams = [toks]
+        for ts in streams:
+            i = 0
+            n = len(ts)
+            while i < n:
+                if ts[i] == ('id', 'impl') and (i == 0 or ts[i - 1] not in (('p', '!'), ('p', '->'), ('p', ':'), ('p', '&'))) and i + 1 < n \
+                        and (ts[i + 1] == ('p', '<') or ts[i + 1][0] == 'id' or ts[i + 1] == ('p', '$')):
+                    j = i
+                    depth = 0
+                    ok = True
+                    while j < n and not (ts[j] == ('p', '{') and depth == 0):
+                        if ts[j][1] == '<': depth += 1
+                        if ts[j][1] == '>': depth -= 1
+                        if ts[j][1] == '>>': depth -= 2
+                        if ts[j] == ('p', ';') and depth <= 0:
+                            ok = False
+                            break
+                        j += 1
+                    if ok and j < n:
+                        hdr = ' '.join(tt for _k, tt in ts[i:j])
+                        try:
+                            disc = impl_disc(hdr)
+                        except Exception:      # noqa
+                            disc = 'unparsed'
+                        marks = [mk for _d, mk in _re.findall(r'(\w+) :: Kind : \$crate :: marker :: (\w+)', hdr)]
+                        rows.append((disc, marks))
+                        i = j + 1
+                        continue
+                i += 1
+    return rows
+
+
 def collect(repo_src_reader, files):
     """[(key, params, lean_expr)], names"""
     from rustlex import lex
